@@ -305,7 +305,7 @@ class Engine(HeapMixin, ExprMixin, AccessMixin, CallMixin, StmtMixin, BytesMixin
     # condition under a short budget ('sat' = confirmed, 'unknown' = quantifier-free only).
     qf = [c for c in st.pc if not _has_quant(c)]
     s = z3.Solver()
-    s.set('timeout', 10000)
+    s.set('timeout', 30000)
     s.add(*qf)
     c = s.check()
     if c == z3.unsat:
